@@ -128,7 +128,7 @@ func IsolatedSolo(sp Spec) ([][]string, error) {
 }
 
 func hasTemplate(sc string) bool {
-	return sc == ScCopyBefore || sc == ScCopyDuring || sc == ScCopyOnly
+	return sc == ScCopyBefore || sc == ScCopyDuring || sc == ScCopyOnly || insideContext(sc) != nil
 }
 
 // InProcessSolo runs every thread of a fresh instance alone IN THIS PROCESS,
